@@ -1364,3 +1364,29 @@ def _id(it, lv, ca, node):
         it.st.assume(z3.Implies(id_of(x) == id_of(y), x == y))
     seen.append(x)
     return V.VInt(id_of(x))
+
+
+# ------------------------------------------------------------------------------------------------
+# zero-argument super(): only `super().__call__()` of a metaclass is modelled (type.__call__)
+# ------------------------------------------------------------------------------------------------
+@spec("builtins.super")
+def _super(it, lv, ca, node):
+    from .interp import LibV
+    return it.st.reg_fun(LibV("super-proxy"))
+
+
+@spec("super-proxy.__call__")
+def _super_call(it, lv, ca, node):
+    c = it.st.contract
+    if c is not None and hasattr(c, "super_call"):
+        return c.super_call(it, ca, node)
+    raise Unsupported("super().__call__() outside a contract that defines it")
+
+
+@spec("object::__new__")
+def _object_new(it, lv, ca, node):
+    """object.__new__(cls): a new, uninitialised instance (does not go through a metaclass __call__)."""
+    c = it.st.simp(V.cid(ca.pos[0]))
+    if not z3.is_int_value(c):
+        raise Unsupported("object.__new__ of a symbolic class")
+    return it.st.alloc(c.as_long())
